@@ -69,6 +69,12 @@ def systematic_blocks():
         for name, k in placements(1, 3)[:4]:
             out.append(case(F, rep(cross([1, 2], [1, 2], [k]), [K("MinimumTrials", k=m)]), "C",
                             ["Repeat", "partial-last", "inner", name], "blk-rep-part%d-in-%s" % (m, name)))
+    # Pin (also counted from the end) given to a block whose last repetition is cut short
+    for m in (5, 6, 7):
+        for nm, k in (("Pin-1a", K("Pin", i=-1, f=1, l=2)), ("Pin-2a", K("Pin", i=-2, f=1, l=1)), ("Pin-3a", K("Pin", i=-3, f=1, l=1)),
+                      ("Pin1a", K("Pin", i=1, f=1, l=1)), ("Pin3a", K("Pin", i=3, f=1, l=2))):
+            out.append(case(F, rep(cross([1, 2], [1, 2], [k]), [K("MinimumTrials", k=m)]), "C",
+                            ["Repeat", "partial-last", "inner", "Pin", nm], "blk-rep-part%d-in-%s" % (m, nm)))
     for name, k in placements(1, 3)[:4]:
         out.append(case(F, rep(cross([1, 2], [1, 2]), [K("MinimumTrials", k=6), k]), "C",
                         ["Repeat", "partial-last", "outer", name], "blk-rep-part6-out-%s" % name))
